@@ -373,6 +373,12 @@ def templates(rng, defs, cv, small_names):
         out.append({"name": "single-array=parties", "params": [("arrc", "u16", N)],
                     "body": lambda ref: (f"pub fn main(a: [u16; {ref(N, 'size')}]) -> u16 {{ let mut s = 0u16; "
                                          "for e in a { s = s ^ e; } s }\n")})
+        cx = ("add", ("id", N), ("u", 1, "usize"))
+        out.append({"name": "single-const-expr-array=parties", "params": [("arre", "u16", cx)],
+                    "body": lambda ref: (f"pub fn main(a: [u16; const {{ {ref(N, 'size')} + 1usize }}]) -> u16 {{ let mut s = 0u16; "
+                                         "for e in a { s = s ^ e; } s }\n")})
+        out.append({"name": "const-expr-array-param+index", "params": [("arre", el, cx), "usize"],
+                    "body": lambda ref: f"pub fn main(a: [{el}; const {{ {ref(N, 'size')} + 1usize }}], i: usize) -> {el} {{ a[i] }}\n"})
         out.append({"name": "nested-array-param", "params": [("arrc", ("arr", "u8", 2), N), ("arrc", "bool", M)],
                     "body": lambda ref: (f"pub fn main(a: [[u8; 2]; {ref(N, 'size')}], b: [bool; {ref(M, 'size')}]) -> u8 {{ "
                                          "let mut s = 0u8; for e in a { s = s ^ e[1]; } for f in b { if f { s = s ^ 1u8; } } s }\n")})
@@ -402,6 +408,7 @@ def templates(rng, defs, cv, small_names):
 def pty_sx(t):
     if isinstance(t, str): return t
     if t[0] == "arrc": return f"(arrc {pty_sx(t[1])} {t[2]})"
+    if t[0] == "arre": return f"(arre {pty_sx(t[1])} {e_sx(t[2])})"
     if t[0] == "arr": return f"(arr {pty_sx(t[1])} {t[2]})"
     if t[0] == "tup": return "(tup" + "".join(" " + pty_sx(x) for x in t[1:]) + ")"
     raise ValueError(t)
@@ -410,15 +417,26 @@ def pty_sx(t):
 def psize(t, cv):
     if isinstance(t, str): return bits_of(t)
     if t[0] == "arrc": return psize(t[1], cv) * cv[t[2]][1]
+    if t[0] == "arre": return psize(t[1], cv) * arre_len(t[2], cv)
     if t[0] == "arr": return psize(t[1], cv) * t[2]
     if t[0] == "tup": return sum(psize(x, cv) for x in t[1:])
 
 
+def arre_len(e, cv):
+    """value of a usize const expression over the (usize) consts cv: wrapping at 32 bits"""
+    k = e[0]
+    if k == "u": return e[1]
+    if k == "id": return cv[e[1]][1]
+    if k in ("max", "min"): return (max if k == "max" else min)(arre_len(a, cv) for a in e[1])
+    a, b = arre_len(e[1], cv), arre_len(e[2], cv)
+    return (a + b if k == "add" else a - b) % (1 << 32)
+
+
 def expected_ig(params, cv):
     """party sizes that follow from the constants"""
-    if len(params) == 1 and not isinstance(params[0], str) and params[0][0] in ("arrc", "arr"):
+    if len(params) == 1 and not isinstance(params[0], str) and params[0][0] in ("arrc", "arr", "arre"):
         t = params[0]
-        n = cv[t[2]][1] if t[0] == "arrc" else t[2]
+        n = cv[t[2]][1] if t[0] == "arrc" else arre_len(t[2], cv) if t[0] == "arre" else t[2]
         return [psize(t[1], cv)] * n
     return [psize(t, cv) for t in params]
 
